@@ -18,7 +18,7 @@ CHECK = {
     "assumptions": ["query.Parse's reference time is taken from the returned Query.ReferenceTime",
                     "THEN semantics per DESIGN.md section 4.4; negated compound payload groups followed by THEN are not asserted"],
     "campaigns": [
-        {"test": "TestVerifC03", "checks": {"quick": 24000, "thorough": 1500000}, "timeout": {"quick": 400, "thorough": 3600}},
+        {"test": "TestVerifC03", "checks": {"quick": 120000, "thorough": 3000000}, "timeout": {"quick": 400, "thorough": 3600}},
         {"test": "TestVerifC03Fixed", "fixed": True, "checks": {"quick": 1, "thorough": 1}},
     ],
 }
